@@ -611,6 +611,14 @@ impl DcpsDomainParticipant {
                     heartbeat_submessage.writer_id(),
                 );
                 let reader_guid = dr.transport_reader.guid();
+                // Each reader has its own heartbeat count in the writer: the heartbeat sent
+                // to another reader of this participant says nothing to this one
+                if !dr
+                    .transport_reader
+                    .is_addressed(heartbeat_submessage._reader_id())
+                {
+                    continue;
+                }
                 if let Some(writer_proxy) = dr.transport_reader.matched_writer_lookup(writer_guid) {
                     if writer_proxy.last_received_heartbeat_count() < heartbeat_submessage.count() {
                         writer_proxy
